@@ -812,8 +812,13 @@
     'done)
    ((< (%point-depth here) (%point-depth target))
     (travel-to-point! here (%point-parent target))
-    ((%point-in target)))
+    ((%point-in target))
+    (%dk target))
    (else
+    ;; a thunk runs in the dynamic extent of the dynamic-wind call, so
+    ;; leave the point before running its after thunk: if the thunk
+    ;; raises, the escape must not run it again
+    (%dk (%point-parent here))
     ((%point-out here))
     (travel-to-point! (%point-parent here) target))))
 
